@@ -517,6 +517,17 @@ def check_condense_case(ctx, cases, state, n, csr, b, x, S, which, rng, Sarg=Non
         ctx.fail('condense:repeated-indices', 'condense with an index array that repeats an index: the repeated index is counted '
                  'more than once (an index array denotes a set)', dict(rep, returned_I=Ir_l))
         return
+    # the kept set in the CALLER'S order (first occurrences): with expand=False the caller scatters the solution himself
+    # through his own index array, so the rows/columns of the condensed system must follow it: AII == A[I][:, I]
+    if which == 'I' and isinstance(Sarr, np.ndarray):
+        dn = dense_of(ip, ix, d, n)
+        want_AII = [[dn[i][j] for j in I] for i in I]
+        got_AII = [[as_int(v) for v in r] for r in AII.toarray()] if len(I) else []
+        if Ir_l != I or got_AII != want_AII:
+            ctx.fail('condense:index-order', 'condense(I=array): the kept indices are not returned / used in the caller\'s order '
+                     '(first occurrences): the condensed matrix is not A[I][:, I], so x[I] = solve(AII, bI) with expand=False '
+                     'scatters the solution to the wrong indices', dict(rep, returned_I=Ir_l, expected_I=I, AII=got_AII, A_I_I=want_AII))
+            return
     # expand=False: the same system without (x, I)
     out2 = condense(A, bb, xx, expand=False, **{which: Sarr})
     if b_eff is None:
